@@ -114,6 +114,7 @@ func Load(repo string, cfg Config, needSSA bool) (*Program, error) {
 		}
 	}
 	p.allFuncs = ssautil.AllFunctions(prog)
+	p.resolveRenames()
 	p.byName = map[string]*ssa.Function{}
 	for f := range p.allFuncs {
 		if f.Pkg == nil || !strings.HasPrefix(f.Pkg.Pkg.Path(), modPath) {
@@ -133,12 +134,16 @@ func Load(repo string, cfg Config, needSSA bool) (*Program, error) {
 // funcKey is the stable name of a module function: "pogreb.Open", "pogreb.(*DB).Put",
 // "pogreb.(*DB).Get$1", "fs.(*memFS).OpenFile".
 func funcKey(f *ssa.Function) string {
-	s := f.RelString(nil)
-	s = strings.Replace(s, fsPath+".", "fs.", -1)
-	s = strings.Replace(s, modPath+"/internal/", "internal/", -1)
-	s = strings.Replace(s, modPath+".", "pogreb.", -1)
-	s = strings.Replace(s, "(*"+fsPath+".", "fs.(*", -1) // not expected
-	return s
+	if a, ok := fnAlias[f]; ok {
+		return a
+	}
+	if par := f.Parent(); par != nil {
+		// closures are named after their (possibly renamed) parent
+		if pk, rk := funcKey(par), rawKey(par); pk != rk {
+			return pk + strings.TrimPrefix(rawKey(f), rk)
+		}
+	}
+	return rawKey(f)
 }
 
 // Fn returns the module function with the given key or nil.
